@@ -1,7 +1,17 @@
 # -*- coding: utf-8 -*-
 
 import functools as ft
-from typing import Dict, List, Mapping, Optional, Type, TypeVar, Union, cast
+from typing import (
+    Dict,
+    List,
+    Mapping,
+    Optional,
+    Set,
+    Type,
+    TypeVar,
+    Union,
+    cast,
+)
 
 from .._utils import lazy
 from ..exc import ExtensionError, SDLError
@@ -67,6 +77,7 @@ class ASTTypeBuilder:
         "_cache",
         "_extended_cache",
         "_extensions",
+        "_building",
     )
 
     def __init__(
@@ -81,6 +92,7 @@ class ASTTypeBuilder:
 
         self._cache = dict(_DEFAULT_TYPES_MAP)  # type: Dict[str, GraphQLType]
         self._extended_cache = {}  # type: Dict[str, GraphQLType]
+        self._building = set()  # type: Set[str]
         self._extensions = type_extensions
         self._cache.update(additional_types)
 
@@ -128,25 +140,29 @@ class ASTTypeBuilder:
                 else:
                     type_def = cast(_ast.TypeDefinition, type_node)
 
-                if isinstance(type_def, _ast.ObjectTypeDefinition):
-                    built = self._build_object_type(
-                        type_def
-                    )  # type: GraphQLType
-                elif isinstance(type_def, _ast.InterfaceTypeDefinition):
-                    built = self._build_interface_type(type_def)
-                elif isinstance(type_def, _ast.EnumTypeDefinition):
-                    built = self._build_enum_type(type_def)
-                elif isinstance(type_def, _ast.UnionTypeDefinition):
-                    built = self._build_union_type(type_def)
-                elif isinstance(type_def, _ast.ScalarTypeDefinition):
-                    built = self._build_scalar_type(type_def)
-                elif isinstance(type_def, _ast.InputObjectTypeDefinition):
-                    built = self._build_input_object_type(type_def)
-                else:
-                    raise TypeError(type(type_def))
+                self._building.add(type_name)
+                try:
+                    built = self._build_named_type(type_def)
+                finally:
+                    self._building.discard(type_name)
 
                 self._cache[type_name] = built
                 return built
+
+    def _build_named_type(self, type_def: _ast.TypeDefinition) -> GraphQLType:
+        if isinstance(type_def, _ast.ObjectTypeDefinition):
+            return self._build_object_type(type_def)
+        elif isinstance(type_def, _ast.InterfaceTypeDefinition):
+            return self._build_interface_type(type_def)
+        elif isinstance(type_def, _ast.EnumTypeDefinition):
+            return self._build_enum_type(type_def)
+        elif isinstance(type_def, _ast.UnionTypeDefinition):
+            return self._build_union_type(type_def)
+        elif isinstance(type_def, _ast.ScalarTypeDefinition):
+            return self._build_scalar_type(type_def)
+        elif isinstance(type_def, _ast.InputObjectTypeDefinition):
+            return self._build_input_object_type(type_def)
+        raise TypeError(type(type_def))
 
     def build_directive(
         self, directive_def: _ast.DirectiveDefinition
@@ -330,6 +346,12 @@ class ASTTypeBuilder:
                 _ast.InterfaceTypeDefinition,
                 _ast.UnionTypeDefinition,
             ),
+        ) and (
+            # Schema validation reports misplaced types together with every
+            # other violation; only the cases which cannot even be built are
+            # refused here.
+            node.default_value is not None
+            or named.name.value in self._building
         ):
             raise SDLError(
                 'Expected input type for "%s" but got "%s"'
